@@ -1030,4 +1030,77 @@ the first two guards of `Router.process_frame` have the shape `routerArpSoft` mo
 theorem C06_gen_router_arp : Gen.FilterSoft.routerArp = routerArpOrder := by decide
 
 
+/-! ## 8. non-vacuity -/
+
+section examples
+
+def exSrcRange : Rule := { anyPattern with srcIp := some 0x0A000100#32, srcWc := some 0x000000FF#32 }
+def exPermitAny : Rule := { anyPattern with action := .permit }
+
+/-- a 24-slot list: source-range DENY at position 3, PERMIT any-any at position 10 (the shape R-net builds) -/
+def exClassAcl : Acl :=
+  { rules := List.replicate 3 none ++ [some exSrcRange] ++ List.replicate 6 none ++ [some exPermitAny] ++ List.replicate 13 none,
+    implicit := .deny }
+
+def exPktFromA : Packet := { proto := .tcp, srcIp := 0x0A00010A#32, dstIp := 0x0A000214#32, ports := some (5432, 5432) }
+def exPktFromB : Packet := { proto := .tcp, srcIp := 0x0A000214#32, dstIp := 0x0A00010A#32, ports := some (5432, 5432) }
+
+/-- the scan accepts the list for the source-range class, a packet of A is in the class and is denied, a packet from B
+is not in the class and is permitted (so the list is NOT a deny-everything list: the old certificate rejects it) -/
+example : denyClassCheck [exSrcRange] exClassAcl = true ∧ clsHolds [exSrcRange] exPktFromA = true ∧
+    (isPermitted exClassAcl exPktFromA).1 = false ∧ clsHolds [exSrcRange] exPktFromB = false ∧
+    (isPermitted exClassAcl exPktFromB).1 = true ∧ denyAllCheck exClassAcl = false := by decide
+
+/-- a PERMIT rule ahead of the DENY rule, or a class wider than the rule, fails the scan -/
+example : denyClassCheck [exSrcRange] { exClassAcl with rules := [some exPermitAny] ++ exClassAcl.rules } = false ∧
+    denyClassCheck [anyPattern] exClassAcl = false := by decide
+
+def exIfA : Iface := { enabled := true, mac := 11, ip := 0x0A000101#32, mask := 0xFFFFFF00#32 }
+def exIfB : Iface := { enabled := true, mac := 12, ip := 0x0A000201#32, mask := 0xFFFFFF00#32 }
+
+def exRouterC : Node Unit :=
+  { kind := .router, on := true, ifaces := [exIfA, exIfB], acls := fun _ => exClassAcl, sw := () }
+def exHost (ip : Ip) : Node Unit :=
+  { kind := .host, on := true, ifaces := [{ enabled := true, mac := 5, ip := ip, mask := 0xFFFFFF00#32 }],
+    acls := fun _ => Acl.empty 0 .deny, sw := () }
+
+/-- A (0) — R (1) — B (2), R's list as above -/
+def exTopoC : TopoC :=
+  { nodes := [(true, .interior), (true, .routerDenyC), (false, .interior)],
+    wires := [((0, 0), (1, 0)), ((1, 0), (0, 0)), ((1, 1), (2, 0)), ((2, 0), (1, 1))],
+    cls := [exSrcRange], arpExempt := true }
+def exStatesC : Nat → Node Unit := fun n => if n = 1 then exRouterC else exHost (if n = 0 then 0x0A00010A#32 else 0x0A000214#32)
+
+/-- the class-aware certificate accepts it; it rejects the same network when the rule is missing, when B's network
+overlaps A's (the ARP condition), and when the router is declared interior -/
+example : certifyC exTopoC exStatesC = true ∧
+    certifyC exTopoC (fun n => if n = 1 then { exRouterC with acls := fun _ => Acl.empty 24 .permit } else exStatesC n) = false ∧
+    certifyC exTopoC (fun n => if n = 1 then { exRouterC with ifaces := [exIfA, { exIfB with ip := 0x0A000102#32 }] } else exStatesC n) = false ∧
+    certifyC { exTopoC with nodes := [(true, .interior), (true, .interior), (false, .interior)] } exStatesC = false := by decide
+
+def exArpReq : Frame :=
+  { srcMac := 5, dstMac := bcastMac, pkt := { proto := .udp, srcIp := 0x0A00010A#32, dstIp := 0x0A000101#32, ports := some (219, 219) },
+    ttl := 63, arp := true, tag := 0, arpReq := true, arpSnd := 0x0A00010A#32, arpTgt := 0x0A000101#32 }
+
+def exRouterArp : RouterArp Unit :=
+  { arpOpen := fun _ => true, arpRuns := fun _ => true, sessRx := fun _ _ _ => (), route := fun _ _ => none, sent := fun _ _ => () }
+
+/-- the ARP path is not vacuous: the frame skips the list (which would deny it), is handed to the ARP service, and the
+router answers — on the port the request came from, not towards B -/
+example : subjectToAcl exArpReq = some false ∧ (isPermitted exClassAcl exArpReq.pkt).1 = false ∧
+    permitted (routerArpSoft exRouterArp exEchoSoft) exRouterC 0 exArpReq =
+      .send exRouterC 0 (arpReplyFrame exIfA exIfA exArpReq) (fun s' => .done s') := by
+  refine ⟨by decide, by decide, ?_⟩
+  simp [permitted, routerArpSoft, isArpExempt, subjectToAcl, exArpReq, arpPort, exRouterC, exRouterArp, arpSession,
+    routerResolveOut, firstEnabledIn, exIfA, exIfB, Iface.inNet, exEchoSoft]
+
+/-- `send_arp_request`: an off-subnet target is replaced by the gateway; a cached one sends nothing -/
+example : arpRequestTarget [exIfA] (some 0x0A0001FE#32) false 0x0A000214#32 = some 0x0A0001FE#32 ∧
+    arpRequestTarget [exIfA] (some 0x0A0001FE#32) false 0x0A000107#32 = some 0x0A000107#32 ∧
+    arpRequestTarget [exIfA] none false 0x0A000214#32 = none ∧
+    arpRequestTarget [exIfA] (some 0x0A0001FE#32) true 0x0A000107#32 = none := by decide
+
+end examples
+
+
 end Primaite.Filter
